@@ -519,3 +519,105 @@ def check_persistent_state(repo, chk, prefixes, rule="P-state"):
     # positive example
     t = ast.parse("class K:\n    def f(self, mc):\n        if self._i is None:\n            self._i = g(mc)\n        return self._i\n    def h(self, name, m):\n        ms = self._all\n        if name not in ms:\n            ms[name] = conv(m)\n        return ms\n    def ok(self, data):\n        k = id(data)\n        if k not in self.c:\n            self.c[k] = build(data)\n        return self.c[k]\n")
     chk.instance(rule, "fixture parsed (%d methods); the rule is exercised by the self-test mutants" % len(t.body[0].body), nontrivial=False)
+
+
+def check_mutable_defaults(repo, chk, prefixes, rule="L6-default"):
+    """a parameter whose default is a mutable display ({} / [] / set()) is ONE object shared by every call that omits the
+    argument: it must not be mutated, returned, put into a container, or stored on the object if the class mutates
+    that attribute in place"""
+    from .model import AnalysisError
+
+    chk.rule(rule, "no mutable default argument ({} / [] / set()) is mutated in place, returned, stored into a container, or stored on `self` under an attribute that the class mutates in place: every call that omits the argument would share one object (a constraint added to one likelihood would appear in all of them)")
+    INPLACE = ("update", "append", "extend", "setdefault", "pop", "add", "insert", "remove", "clear", "popitem", "sort", "reverse")
+    n_par = 0
+    for rel, m in sorted(repo.mods.items()):
+        if "/tests/" in rel or not any(rel.startswith(p) for p in prefixes):
+            continue
+        for f in m.funcs.values():
+            a = f.node.args
+            names = [x.arg for x in a.posonlyargs + a.args]
+            defaults = dict(zip(names[len(names) - len(a.defaults):], a.defaults))
+            defaults.update({k.arg: d for k, d in zip(a.kwonlyargs, a.kw_defaults) if d is not None})
+            for p, d in sorted(defaults.items()):
+                if not (isinstance(d, (ast.Dict, ast.List, ast.Set)) or (isinstance(d, ast.Call) and isinstance(d.func, ast.Name) and d.func.id in ("dict", "list", "set") and not d.args)):
+                    continue
+                n_par += 1
+                rebound = any(isinstance(st, ast.Assign) and any(isinstance(t, ast.Name) and t.id == p for t in st.targets) for st in _walk_fn(f.node))
+                problems = []
+                for st in _walk_fn(f.node):
+                    if isinstance(st, ast.Call) and isinstance(st.func, ast.Attribute) and isinstance(st.func.value, ast.Name) and st.func.value.id == p and st.func.attr in INPLACE and not rebound:
+                        problems.append((st, "is mutated in place by `%s`" % norm_text(st)[:50]))
+                    if isinstance(st, (ast.Assign, ast.AugAssign)):
+                        for t in (st.targets if isinstance(st, ast.Assign) else [st.target]):
+                            if isinstance(t, ast.Subscript) and isinstance(t.value, ast.Name) and t.value.id == p and not rebound:
+                                problems.append((st, "is mutated in place by `%s`" % norm_text(st)[:50]))
+                    if isinstance(st, ast.Assign) and isinstance(st.value, ast.Name) and st.value.id == p and not rebound:
+                        for t in st.targets:
+                            if isinstance(t, ast.Attribute) and isinstance(t.value, ast.Name) and t.value.id == "self" and f.cls is not None:
+                                muts = []
+                                for c in list(f.cls.mro) + list(f.cls.all_subclasses()):
+                                    for mm in c.methods.values():
+                                        for x in _walk_fn(mm.node):
+                                            if isinstance(x, ast.Call) and isinstance(x.func, ast.Attribute) and x.func.attr in INPLACE and isinstance(x.func.value, ast.Attribute) and x.func.value.attr == t.attr and isinstance(x.func.value.value, ast.Name) and x.func.value.value.id == "self":
+                                                muts.append((mm, x))
+                                            if isinstance(x, (ast.Assign, ast.AugAssign)):
+                                                for tt in (x.targets if isinstance(x, ast.Assign) else [x.target]):
+                                                    if isinstance(tt, ast.Subscript) and isinstance(tt.value, ast.Attribute) and tt.value.attr == t.attr and isinstance(tt.value.value, ast.Name) and tt.value.value.id == "self":
+                                                        muts.append((mm, x))
+                                if muts:
+                                    problems.append((st, "is stored as self.%s, which %s mutates in place (`%s`)" % (t.attr, muts[0][0].qual, norm_text(muts[0][1])[:50])))
+                            elif isinstance(t, ast.Subscript):
+                                problems.append((st, "is stored into a container by `%s`" % norm_text(st)[:50]))
+                    if isinstance(st, ast.Return) and isinstance(st.value, ast.Name) and st.value.id == p and not rebound:
+                        problems.append((st, "is returned to the caller"))
+                chk.instance(rule, "%s: parameter `%s` defaults to a shared mutable object; hazardous uses: %d" % (f.key, p, len(problems)), nontrivial=bool(problems))
+                for st, why in problems[:2]:
+                    chk.violation(rule, f.key, "default:%s" % p, "the mutable default of `%s` %s: all calls that omit `%s` share one object, so a change made through one of them shows up in every other" % (p, why, p), file=rel, line=st.lineno)
+    if n_par < 1:
+        raise AnalysisError("%s: no mutable default argument found under %s (the rule would pass vacuously)" % (rule, prefixes))
+
+
+def check_iteration_order_agreement(repo, chk, prefixes, rule="O-iter"):
+    """methods of one class that traverse the same attribute and pair the entries by position must traverse it in the
+    same order: plain (insertion) order everywhere, or sorted everywhere"""
+    chk.rule(rule, "within a class, every traversal of one and the same dict / list attribute uses the same order - insertion order everywhere or sorted(...) everywhere: two methods that pair entries by position (the k-th integral with the k-th constraint) would otherwise mix up entries that are not listed alphabetically")
+    n_attr = 0
+    for rel, m in sorted(repo.mods.items()):
+        if "/tests/" in rel or not any(rel.startswith(p) for p in prefixes):
+            continue
+        for cls in m.all_classes:
+            sites = {}
+            for mm in cls.methods.values():
+                for x in _walk_fn(mm.node):
+                    it = None
+                    if isinstance(x, (ast.For, ast.comprehension)):
+                        it = x.iter
+                    if it is None:
+                        continue
+                    kind = "plain"
+                    core = it
+                    for _ in range(4):
+                        if isinstance(core, ast.Call) and isinstance(core.func, ast.Name) and core.func.id in ("enumerate", "list", "tuple", "reversed", "zip") and core.args:
+                            core = core.args[0] if core.func.id != "zip" else next((a_ for a_ in core.args if "self." in norm_text(a_)), core.args[0])
+                        elif isinstance(core, ast.Call) and isinstance(core.func, ast.Name) and core.func.id == "sorted" and core.args:
+                            kind = "sorted"
+                            core = core.args[0]
+                        elif isinstance(core, ast.Call) and isinstance(core.func, ast.Attribute) and core.func.attr in ("items", "keys", "values") and not core.args:
+                            core = core.func.value
+                        else:
+                            break
+                    if isinstance(core, ast.Attribute) and isinstance(core.value, ast.Name) and core.value.id == "self":
+                        sites.setdefault(core.attr, []).append((kind, mm, x))
+            for attr, ss in sorted(sites.items()):
+                kinds = {k for k, _, _ in ss}
+                meths = {mm.name for _, mm, _ in ss}
+                if len(meths) < 2:
+                    continue
+                n_attr += 1
+                ok = len(kinds) == 1
+                chk.instance(rule, "%s.%s traversed in %d methods (%s): order %s" % (cls.name, attr, len(meths), ", ".join(sorted(meths))[:80], "/".join(sorted(kinds))), nontrivial=not ok)
+                if not ok:
+                    s_ = next(z for z in ss if z[0] == "sorted")
+                    p_ = next(z for z in ss if z[0] == "plain")
+                    chk.violation(rule, s_[1].key, "order:%s" % attr, "%s traverses self.%s in sorted order while %s traverses it in insertion order: results paired by position belong to different entries unless the keys happen to be listed alphabetically" % (s_[1].qual, attr, p_[1].qual), file=rel, line=getattr(s_[2], "lineno", s_[1].lineno) if hasattr(s_[2], "lineno") else s_[1].lineno)
+    chk.instance(rule, "%d (class, attribute) pairs traversed by several methods under %s" % (n_attr, ", ".join(prefixes)), nontrivial=False)
